@@ -1127,3 +1127,23 @@ def rule_nfa_mode(rep, crate):
             rep.inst(rid, 'generate:config', detail=cd[:200])
             if not re.fullmatch(r'agg:graph::Config\{utf8_mode=call:std::option::Option::<T>::unwrap_or\(call:std::option::Option::<T>::map\(call:std::option::Option::<T>::as_ref\(call:<parser::Parser as std::default::Default>::default\.utf8_mode\),fn:syn::LitBool::value\),const:1\)\}', cd):
                 rep.viol(rid, 'config-utf8', 'graph::Config is built as %s, expected utf8_mode = parser.utf8_mode.map(value).unwrap_or(true)' % cd[:200], loc(gen, t['line']))
+
+
+# --------------------------------------------------------------------------------------------
+# positive controls on fixtures/mir-cg (a frozen copy of logos-codegen/src with seeded defects)
+# --------------------------------------------------------------------------------------------
+
+def cg_controls(rep, ctx, rids):
+    """rids: list of (rule id, callable(report, crate)) — each rule must report a non-anchor violation on the fixture"""
+    import core
+    crid = rep.rule('M-controls-cg', 'positive controls: the generator rules fire on fixtures/mir-cg, a frozen copy of logos-codegen/src carrying seeded defects (fixtures/mir-cg/APPLIED.txt)')
+    crate = ctx.mir('fixture-cg')['logos_codegen']
+    for rid, run in rids:
+        probe = core.Report(rep.pid, rep.tier)
+        try:
+            run(probe, crate)
+        except Exception as e:     # a rule that crashes on the broken copy has not fired
+            probe.rule(rid, 'crashed')
+        real = [v for v in probe.rules.get(rid, dict(violations=[]))['violations'] if not v['key'].startswith('anchor-missing')]
+        rep.inst(crid, rid)
+        rep.control(crid, '%s on fixtures/mir-cg' % rid, bool(real))
